@@ -2,12 +2,14 @@ package zzverif
 
 import (
 	"context"
+	"errors"
 	"fmt"
 	"os"
 	"path/filepath"
 	"sort"
 	"strings"
 	"sync"
+	"sync/atomic"
 	"testing"
 	"time"
 
@@ -66,16 +68,25 @@ func reloadContentSmall(variant, f string, v int, valid bool) string {
 		return fmt.Sprintf("class %s implements Namespace {}\nclass %s implements Namespace { related: { r: %s[] } }\n", a, b, a)
 	case "json":
 		if !valid {
+			if v%2 == 0 {
+				return fmt.Sprintf("{\"name\": %q, \"id\": \"two\"}", a) // well formed, a value of the wrong type
+			}
 			return "{ this is not json"
 		}
 		return fmt.Sprintf("{\"name\": %q, \"id\": %d}", a, v)
 	case "yaml":
 		if !valid {
+			if v%2 == 0 {
+				return fmt.Sprintf("name: %s\nid: two\n", a) // well formed, a value of the wrong type
+			}
 			return "name: [unclosed\n  - x: {"
 		}
 		return fmt.Sprintf("name: %s\nid: %d\n", a, v)
 	default: // toml
 		if !valid {
+			if v%2 == 0 {
+				return fmt.Sprintf("name = %q\nid = \"two\"\n", a) // well formed, a value of the wrong type
+			}
 			return "name = = broken ["
 		}
 		return fmt.Sprintf("name = %q\nid = %d\n", a, v)
@@ -202,6 +213,36 @@ func runReload(t *testing.T, sq reloadSeq) []reloadEvent {
 		sort.Strings(out)
 		return out, nil
 	}
+	// namesT: names(), preceded by a lookup of a name that no version configures (what a check of an unknown
+	// namespace does), both abandoned after 10 s: a namespace store that stops answering must not stop the harness
+	var stuck atomic.Bool
+	var found atomic.Int64
+	namesT := func() ([]string, error) {
+		if stuck.Load() {
+			return nil, errors.New("stuck")
+		}
+		type res struct {
+			ns  []string
+			err error
+		}
+		ch := make(chan res, 1)
+		go func() {
+			if nm, err := reg.Config(ctx).NamespaceManager(); err == nil {
+				if n, err := nm.GetNamespaceByName(ctx, "zz-never-configured"); err == nil && n != nil {
+					found.Add(1)
+				}
+			}
+			ns, err := names()
+			ch <- res{ns, err}
+		}()
+		select {
+		case r := <-ch:
+			return r.ns, r.err
+		case <-time.After(10 * time.Second):
+			stuck.Store(true)
+			return nil, errors.New("stuck")
+		}
+	}
 	var (
 		mu     sync.Mutex
 		events []reloadEvent
@@ -213,7 +254,7 @@ func runReload(t *testing.T, sq reloadSeq) []reloadEvent {
 		mu.Unlock()
 	}
 	sample := func(kind string) {
-		ns, err := names()
+		ns, err := namesT()
 		if err != nil {
 			return
 		}
@@ -240,6 +281,9 @@ func runReload(t *testing.T, sq reloadSeq) []reloadEvent {
 			case <-stop:
 				return
 			default:
+				if stuck.Load() {
+					return
+				}
 				sample("obs")
 				time.Sleep(150 * time.Microsecond)
 			}
@@ -286,8 +330,8 @@ func runReload(t *testing.T, sq reloadSeq) []reloadEvent {
 		}
 	}
 	deadline := time.Now().Add(15 * time.Second)
-	for time.Now().Before(deadline) {
-		ns, _ := names()
+	for time.Now().Before(deadline) && !stuck.Load() {
+		ns, _ := namesT()
 		o := observe(ns, files, sq.Variant)
 		ok := true
 		for _, f := range files {
@@ -307,5 +351,11 @@ func runReload(t *testing.T, sq reloadSeq) []reloadEvent {
 	close(stop)
 	wg.Wait()
 	sample("final")
+	if stuck.Load() {
+		events = append(events, reloadEvent{"ev": "stuck"})
+	}
+	if found.Load() > 0 {
+		events = append(events, reloadEvent{"ev": "phantom", "n": found.Load()})
+	}
 	return events
 }
